@@ -21,6 +21,7 @@ import (
 	"time"
 
 	"github.com/edutko/decipher/internal/file"
+	"github.com/edutko/decipher/internal/names"
 )
 
 type keyPair struct {
@@ -116,6 +117,29 @@ func certArgs(der []byte) ([]string, bool) {
 	a = append(a, strList(uris)...)
 	a = append(a, strList(c.EmailAddresses)...)
 	a = append(a, hxs(c.SignatureAlgorithm.String()))
+	// the subjectAltName extension as it is encoded, and for each directoryName in it what names.FromRawDN makes of it
+	// (the DN rendering is C15's subject; here it is an oracle record)
+	ext, pairs := "none", []string{}
+	for _, e := range c.Extensions {
+		if e.Id.Equal(asn1.ObjectIdentifier{2, 5, 29, 17}) {
+			ext = hx(e.Value)
+			var seq asn1.RawValue
+			if _, err := asn1.Unmarshal(e.Value, &seq); err == nil {
+				for b := seq.Bytes; len(b) > 0; {
+					var v asn1.RawValue
+					var err error
+					if b, err = asn1.Unmarshal(b, &v); err != nil {
+						break
+					}
+					if v.Class == asn1.ClassContextSpecific && v.Tag == 4 {
+						pairs = append(pairs, hx(v.Bytes), hxs(names.FromRawDN(v.Bytes)))
+					}
+				}
+			}
+		}
+	}
+	a = append(a, "X", ext, fmt.Sprint(len(pairs)/2))
+	a = append(a, pairs...)
 	// the subject public key described on its own
 	pk, err := inspectBytes("spki.der", c.RawSubjectPublicKeyInfo)
 	if err == nil && pk.Description == "PKIX public key" {
@@ -151,6 +175,90 @@ func emitCert(op string, der []byte, old []string) {
 		}
 	}
 	emit(op, args...)
+}
+
+// ipText: RFC 5952 text of an address by its length — 4 octets dotted, 16 octets as IPv6 (an IPv4-mapped address is an
+// IPv6 address and stays one)
+func ipText(ip net.IP) string {
+	if len(ip) == 4 {
+		return fmt.Sprintf("%d.%d.%d.%d", ip[0], ip[1], ip[2], ip[3])
+	}
+	mapped := true
+	for i := 0; i < 10; i++ {
+		mapped = mapped && ip[i] == 0
+	}
+	if mapped && ip[10] == 0xff && ip[11] == 0xff {
+		return fmt.Sprintf("::ffff:%d.%d.%d.%d", ip[12], ip[13], ip[14], ip[15])
+	}
+	return ip.String()
+}
+
+// handMadeSAN: a SEQUENCE OF GeneralName built octet by octet, and the names it encodes in order
+func handMadeSAN(r *rng) ([]byte, []string) {
+	ctx := func(tag int, constructed bool, content []byte) *tlv {
+		return &tlv{cls: 2, tag: tag, constructed: false, content: content, kids: nil}
+	}
+	_ = ctx
+	prim := func(tag int, content []byte) []byte { return append(derTagLen(2, tag, false, len(content)), content...) }
+	cons := func(tag int, content []byte) []byte { return append(derTagLen(2, tag, true, len(content)), content...) }
+	oidContent := func(arcs ...int) []byte {
+		b, _ := asn1.Marshal(asn1.ObjectIdentifier(arcs))
+		return b[2:]
+	}
+	var body []byte
+	var gt []string
+	n := 1 + r.intn(5)
+	for k := 0; k < n; k++ {
+		switch r.intn(12) {
+		case 0:
+			d := r.pick([]string{"example.com", "*.example.org", "UPPER.Example.COM", "a.b.c"})
+			body, gt = append(body, prim(2, []byte(d))...), append(gt, d)
+		case 1:
+			e := r.pick([]string{"bob@example.com", "First.Last@Example.ORG"})
+			body, gt = append(body, prim(1, []byte(e))...), append(gt, e)
+		case 2:
+			// URIs exactly as encoded: upper-case scheme, empty fragment, IPv6 host
+			u := r.pick([]string{"HTTP://Example.com/x#", "URN:ISBN:0451450523", "https://[2001:db8::1]:8443/x", "https://10.0.0.1/", "spiffe://td/ns/sa"})
+			body, gt = append(body, prim(6, []byte(u))...), append(gt, u)
+		case 3:
+			ip := net.IP(r.bytes(4))
+			body, gt = append(body, prim(7, ip)...), append(gt, ipText(ip))
+		case 4:
+			ip := net.IP(r.bytes(16))
+			switch r.intn(4) {
+			case 0: // IPv4-mapped
+				ip = append(append(make([]byte, 10), 0xff, 0xff), r.bytes(4)...)
+			case 1: // runs of zero groups
+				for j := 2 * r.intn(6); j < 16 && r.intn(5) != 0; j++ {
+					ip[j] = 0
+				}
+			case 2:
+				ip = net.IP{0x20, 0x01, 0x0d, 0xb8, 0, 0, 0, 0, 0, 1, 0, 0, 0, 0, 0, 1}
+			}
+			body, gt = append(body, prim(7, ip)...), append(gt, ipText(ip))
+		case 5:
+			body, gt = append(body, prim(8, oidContent(1, 2, 3, 4))...), append(gt, "registeredID:1.2.3.4")
+		case 6:
+			rdn, _ := asn1.Marshal(pkix.Name{CommonName: "dir", Organization: []string{"Org"}}.ToRDNSequence())
+			body, gt = append(body, cons(4, rdn)...), append(gt, "dirName:"+names.FromRawDN(rdn))
+		case 7:
+			// otherName: a Microsoft user principal name
+			upn := r.pick([]string{"bob@corp.example", "alice@AD.Example.Com"})
+			val, _ := asn1.MarshalWithParams(upn, "utf8")
+			inner := append(append(derTagLen(0, 6, false, 10), oidContent(1, 3, 6, 1, 4, 1, 311, 20, 2, 3)...), cons(0, val)...)
+			body, gt = append(body, cons(0, inner)...), append(gt, "otherName:1.3.6.1.4.1.311.20.2.3:"+upn)
+		case 8:
+			// otherName whose value is not a character string: shown as the hex of its encoding
+			val := []byte{0x04, 0x02, 0xab, 0xcd}
+			oc := oidContent(1, 2, 3, 99)
+			inner := append(append(derTagLen(0, 6, false, len(oc)), oc...), cons(0, val)...)
+			body, gt = append(body, cons(0, inner)...), append(gt, "otherName:1.2.3.99:0402abcd")
+		default:
+			d := fmt.Sprintf("h%d.example.net", r.intn(1000))
+			body, gt = append(body, prim(2, []byte(d))...), append(gt, d)
+		}
+	}
+	return append(derTagLen(0, 16, true, len(body)), body...), gt
 }
 
 func genC03(tier string, r *rng) {
@@ -243,14 +351,22 @@ func genC03(tier string, r *rng) {
 				}
 			}
 		}
+		// crypto/x509 writes the names in the order dNSName, rfc822Name, iPAddress, URI: that is the order encoded
 		sanGT = append(sanGT, tmpl.DNSNames...)
+		sanGT = append(sanGT, tmpl.EmailAddresses...)
 		for _, ip := range tmpl.IPAddresses {
-			sanGT = append(sanGT, ip.String())
+			sanGT = append(sanGT, ipText(ip))
 		}
 		for _, u := range tmpl.URIs {
 			sanGT = append(sanGT, u.String())
 		}
-		sanGT = append(sanGT, tmpl.EmailAddresses...)
+		if i%3 == 0 {
+			// a subjectAltName written by hand: every kind of GeneralName, in any order, texts exactly as encoded
+			ext, gt := handMadeSAN(r)
+			tmpl.DNSNames, tmpl.EmailAddresses, tmpl.IPAddresses, tmpl.URIs = nil, nil, nil, nil
+			tmpl.ExtraExtensions = []pkix.Extension{{Id: asn1.ObjectIdentifier{2, 5, 29, 17}, Value: ext}}
+			sanGT = gt
+		}
 		parent := tmpl
 		if r.intn(3) == 0 {
 			parent = &x509.Certificate{SerialNumber: big.NewInt(7), Subject: pkix.Name{CommonName: "Issuing CA, " + r.pick(words)}, SubjectKeyId: r.bytes(20),
